@@ -37,7 +37,11 @@ CFG = {
         "epochs incl. 0 / negative / after 2262, nodes 0/1/max/random, restart ids: 0, last issued id (chains), seeded just below "
         "the step wrap, arbitrary int64), 1..64 callers; MonoNode on the real monotonic clock (tight / yielding / napping callers, "
         "9000-call tight loops that cross the 4096 wrap); UnixNanoID and UnixNanoNoLockID with supplied timestamps and with GenID; "
-        "Setup with random option lists probed through IDParse / IDFields. "
+        "Setup with random option lists probed through IDParse / IDFields; stress runs of EVERY public generating entry point "
+        "(UnixNanoID.GenID, GenIDByTS with real / frozen ts, HardNode.Generate with frozen / real clock, MonoNode.Generate): 8-32 callers "
+        "released from a barrier, 160 000-320 000 calls per run, restart point ahead of and behind the clock, scanned completely by the "
+        "harness; Coq gets a sample that always contains the neighbourhood of the first duplicates / regressions and evaluates the "
+        "order-free clauses (pairwise distinct, per caller increasing, above the restart point); one source-audit case for the nano entry points. "
         "Non-trivial = the generator was constructed, at least two ids were issued and the history lies inside the representable "
         "range (so every clause of case_holds is actually evaluated; for Setup: at least one option); distinct = distinct Coq term"
     ),
